@@ -248,6 +248,10 @@ func (s *Server) DidClose(ctx context.Context, params *protocol.DidCloseTextDocu
 // recorded include tree contains the file: its content on disk changed (saved)
 // or its editor text no longer counts (closed), so the recorded trees are stale.
 func (s *Server) reanalyseIncluders(ctx context.Context, path string, except protocol.DocumentURI) {
+	if s.client == nil {
+		// analyses only run for a client; what is recorded stays
+		return
+	}
 	s.documents.Range(func(key, _ any) bool {
 		docURI, ok := key.(protocol.DocumentURI)
 		if !ok || docURI == except {
